@@ -323,9 +323,68 @@ def siblings_after_a_left_child():
     return problems
 
 
+def created_then_entered_later():
+    """A scope object is nested under the scope it was *created* in.  Created inside P, handed to a plain task and entered
+    only after P was left (sync and async protocol, sync and async completion callbacks): P completes after that scope
+    was left, exactly once; a scope object that is created under P and entered while P is still running behaves the same."""
+    problems = []
+    for protocol in ("sync", "async"):
+        for async_cb in (False, True):
+            for enter_when in ("after P was left", "while P runs"):
+                order = []
+
+                def cb(tag, order=order):
+                    if async_cb:
+                        async def done(metrics):
+                            order.append(tag)
+                    else:
+                        def done(metrics):
+                            order.append(tag)
+                    return done
+
+                async def main(order=order):
+                    go = asyncio.Event()
+
+                    async def later(scope):
+                        await go.wait()
+                        if protocol == "sync":
+                            with scope:
+                                order.append("C-entered")
+                        else:
+                            async with scope:
+                                order.append("C-entered")
+                        order.append("C-left")
+                    with ctx.scope("P", completion=cb("P")):
+                        child = ctx.scope("C", completion=cb("C"))
+                        t = asyncio.ensure_future(later(child))
+                        await asyncio.sleep(0)
+                        if enter_when == "while P runs":
+                            go.set()
+                            await asyncio.sleep(0)
+                            await asyncio.sleep(0)
+                    order.append("P-left")
+                    for _ in range(3):
+                        await asyncio.sleep(0)
+                    go.set()
+                    await t
+                    for _ in range(4):
+                        await asyncio.sleep(0)
+                try:
+                    asyncio.run(main())
+                except BaseException as e:  # noqa
+                    problems.append(f"scope created in P and entered {enter_when} ({protocol} protocol): the program ended with {e!r}")
+                    continue
+                what = f"scope C created inside P, entered {enter_when} by a plain task ({protocol} protocol, {'async' if async_cb else 'sync'} callbacks)"
+                if order.count("P") != 1 or order.count("C") != 1:
+                    problems.append(f"{what}: completions fired P x{order.count('P')}, C x{order.count('C')} (events {order})")
+                elif order.index("P") < order.index("C-left"):
+                    problems.append(f"{what}: P completed before the scope nested under it was left (events {order})")
+    return problems
+
+
 def main():
     sys.stdin.read()
-    sp = scripted() or worker_thread_scope() or siblings_after_a_left_child()
+    sp = scripted() or worker_thread_scope() or siblings_after_a_left_child() or created_then_entered_later()
     if sp:
         print(json.dumps(dict(reproduced=True, detail=dict(problem=sp[0], scenario="scripted"), cases_tried=1), default=str))
         return
